@@ -20,6 +20,7 @@ from __future__ import annotations
 
 import copy
 import itertools
+import os
 import random
 import sys
 import warnings
@@ -313,6 +314,12 @@ class C16:
         # extended in place and process() is called again - the second result must describe the circuit as it
         # is then (no measurement data, circuits or settings may survive from the first call)
         twice = bool(c.get("twice")) and len(c["gates"]) >= 1 and not c.get("bad") and (k != "mle" or n == 1)
+        if not c.get("bad") and qubit_unitary(build_base(n, c["gates"]), n) is None:
+            # e.g. two post-selected gates in sequence on the same qubits: the circuit does not implement a unitary
+            # on the dual-rail basis, which is outside what the property quantifies over
+            c["_skip"] = True
+            return {"res": {"skip": "the base circuit does not implement a unitary on the dual-rail basis"},
+                    "inputs": [], "circ_ok": True, "aux": {"problems": [], "V": None}}
         base = build_base(n, c["gates"][:-1] if twice else c["gates"])
         before = snapshot(base)
         v = qubit_unitary(base, n)
@@ -417,6 +424,9 @@ class C16:
                         cv = lambda vv: [[float(np.real(x)), float(np.imag(x))] for x in vv]
                         res = {"ok": [cv(list(data.values())), cv(nv), cmat(g0)]}
             except Exception as e:  # noqa: BLE001
+                if os.environ.get("C16_DEBUG"):
+                    import traceback
+                    traceback.print_exc()
                 name = type(e).__name__
                 res = {"err": name if name in core.ERR_CODES.values() else "OtherError"}
         if not snap_equal(before, snapshot(base)):
@@ -447,6 +457,8 @@ class C16:
             return f"run_c16_mleparts {cn(c['n'])} {coq_mat(c['choi'])} {clist(f'({cz(a)}, {cz(b)})' for a, b in c['dat'])}"
         if k == "tp":
             return f"run_c16_tp {cn(c['n'])} {coq_mat(c['choi'])}"
+        if c.get("_skip"):
+            return "SL nil"
         req = c.get("_req") or []
         rq = clist(clist(PCTOR[x] for x in s.split(",")) for s in req)
         rs = clist(clist(f"({clist(cz(v) for v in s)}, ({cz(num)}, {cz(den)}))" for s, (num, den) in items)
@@ -463,6 +475,8 @@ class C16:
 
     def decode(self, c, sx):
         k = c["kind"]
+        if c.get("_skip"):
+            return None
         un = core.unscale
         cm = lambda m: [[[un(e[0]), un(e[1])] for e in row] for row in m]
         cv = lambda v: [[un(e[0]), un(e[1])] for e in v]
@@ -500,6 +514,8 @@ class C16:
 
     def compare(self, c, a, b):
         k = c["kind"]
+        if c.get("_skip"):
+            return None
         if k in ("static", "init", "mleparts", "tp"):
             return core.approx_equal(a, b, tol=1e-9)
         a2 = {kk: v for kk, v in a.items() if kk != "aux"}
